@@ -163,8 +163,12 @@ check_read_seq(uint16 ref, const uint8 *s, int n, int p1, int k1, int p2, int k2
         if (ps[i] < 0)
             continue;
         if (ps[i] != pos || i > 0) {
-            if (Hseek(aid, ps[i], DF_START) == FAIL) {
-                mc_violation(ps[i] < pos ? "seek:backward-failed" : "seek:forward-failed", "%s %s: Hseek(%d) from %d failed (length %d)", cname, phase, ps[i], pos, n);
+            /* the same target position expressed from the start, from the current position or from the end */
+            int   org = (p1 + 2 * p2 + k1 + i) % 3;
+            int32 off = org == 0 ? ps[i] : org == 1 ? ps[i] - pos : ps[i] - n;
+            if (Hseek(aid, off, org == 0 ? DF_START : org == 1 ? DF_CURRENT : DF_END) == FAIL) {
+                mc_violation(ps[i] < pos ? "seek:backward-failed" : "seek:forward-failed", "%s %s: Hseek(%d,%s) to %d from %d failed (length %d)", cname, phase, (int)off,
+                             org == 0 ? "DF_START" : org == 1 ? "DF_CURRENT" : "DF_END", ps[i], pos, n);
                 bad = 1;
                 break;
             }
@@ -186,7 +190,8 @@ check_read_seq(uint16 ref, const uint8 *s, int n, int p1, int k1, int p2, int k2
             continue;
         }
         if (r != want) {
-            mc_violation("read:count", "%s %s: seek %d, Hread(%d) returned %d, expected %d (length %d)", cname, phase, ps[i], ks[i], (int)r, want, n);
+            mc_violation("read:count", "%s %s: seek to %d (origin %d), Hread(%d) returned %d, expected %d (length %d)", cname, phase, ps[i], (p1 + 2 * p2 + k1 + i) % 3, ks[i], (int)r,
+                         want, n);
             bad = 1;
             break;
         }
@@ -771,11 +776,11 @@ bit_case(long idx, void *ctx)
 }
 
 
-/* reading through the write-mode bit element that wrote the data (what the n-bit and skipping-Huffman coders do when
-   a data set is read through the id that wrote it): write every field, then - without ending the access - seek to
-   every field and read it (each read is a write->read switch, mostly with a partly filled byte pending), and finally
-   check the whole element through a fresh read access. Bit-granular overwriting in place through such an access is
-   not part of the alphabet: the library's own callers never do it and HIread2write does not support it. */
+/* reading and writing through ONE write-mode bit element (what the n-bit coder does when a data set is read or
+   partly rewritten through the id that wrote it): write every field, then - without ending the access - seek to
+   every field and read it (write->read switch, mostly with a partly filled byte pending), overwrite one field in
+   place and read the following one without a seek (read->write and write->read switches back to back), and
+   finally check the whole element through a fresh read access */
 static void
 bitmix_case(long idx, void *ctx)
 {
@@ -852,6 +857,32 @@ bitmix_case(long idx, void *ctx)
             return;
         }
         mc_count("bitmix_reads", 1);
+    }
+    /* (b) overwrite field j in place, then read field j+1 directly behind it */
+    int j = (int)(idx % (nw - 1));
+    {
+        uint32 d = pattern(w[j], j + 7) ^ 1u;
+        d &= w[j] == 32 ? 0xffffffffu : ((1u << w[j]) - 1);
+        if (Hbitseek(bid, (int32)(start[j] / 8), (int)(start[j] % 8)) == FAIL || Hbitwrite(bid, w[j], d) != w[j]) {
+            mc_violation("bitmix:rewrite", "seek + Hbitwrite(%d) at bit %ld failed", w[j], start[j]);
+            return;
+        }
+        for (int b = w[j] - 1, q = 0; b >= 0; b--, q++)
+            bv[start[j] + q] = (uint8)((d >> b) & 1u);
+        if (!(start[j + 1] + w[j + 1] > total / 8 * 8 && total % 8)) {
+            uint32 got = 0, exp;
+            if (Hbitread(bid, w[j + 1], &got) != w[j + 1]) {
+                mc_violation("bitmix:read-count", "Hbitread(%d) directly after rewriting the field in front of it returned a different count", w[j + 1]);
+                return;
+            }
+            getbits(bv, start[j + 1], w[j + 1], &exp);
+            if (got != exp) {
+                mc_violation("bitmix:value-after-write", "field %d (width %d at bit %ld) read directly after field %d was rewritten gives 0x%x, expected 0x%x", j + 1,
+                             w[j + 1], start[j + 1], j, got, exp);
+                return;
+            }
+            mc_count("bitmix_reads", 1);
+        }
     }
     if (Hendbitaccess(bid, 0) == FAIL) {
         mc_violation("bitmix:end", "Hendbitaccess failed");
@@ -1102,7 +1133,7 @@ C05_main(const char *tier, const char *replay)
     mc_round_begin("bit I/O: every sequence of field widths x re-partition x bit seek");
     mc_foreach(nbit, bit_case, NULL, 1, 120);
     mc_round_end();
-    mc_round_begin("bit I/O: seek + read of every field through the writing access");
+    mc_round_begin("bit I/O: reads and in-place rewrites through the writing access");
     mc_foreach(nbit, bitmix_case, NULL, 1, 120);
     mc_round_end();
     mc_round_begin("bit I/O: large elements, seeks around the 4096-byte buffer boundaries");
@@ -1114,7 +1145,7 @@ C05_main(const char *tier, const char *replay)
             "partition, read back whole, under every 2-call partition and seek/read patterns incl. backward seeks, rewritten in full, reopened; reported "
             "sizes compared with the stored element. n-bit: %ld parameter sets x value families (all 2^8 [2^16 thorough] / boundary families) x 4 read "
             "partitions x 2 sessions against the documented projection. bit I/O: all width sequences of <=%d fields from {1,2,7,8,9,15,16,17,31,32}, "
-            "every 2-read re-partition after bit seeks; the same sequences read back field by field through the writing access. distinct = distinct (input,coder) / parameter sets / width sequences completed.",
+            "every 2-read re-partition after bit seeks; the same sequences read back field by field, one field rewritten in place and the next read, all through the writing access. distinct = distinct (input,coder) / parameter sets / width sequences completed.",
             NCODERS, NSTR, thorough ? 12 : 10, NNB, nfields);
     return 0;
 }
